@@ -273,9 +273,15 @@ func (g *G) genDidMsg() (sdk.Msg, string) {
 		}
 	}
 	var doc *didtypes.DIDDocument
-	if g.chance("update-to-empty", 4) {
+	if g.chance("update-to-empty", g.bias("update-to-empty", 5)) {
 		doc = &didtypes.DIDDocument{}
 		note = "did-update-to-empty"
+		if g.chance("blank-id-with-content", 50) {
+			// the deactivated form is "a document without id": it may still carry other fields
+			doc = g.genDoc(did, newAuth)
+			doc.Id = ""
+			note = "did-update-to-blank-id-document"
+		}
 	} else {
 		doc = g.genDoc(docDID, newAuth)
 	}
@@ -310,7 +316,23 @@ func (g *G) proof(against *didtypes.DIDDocument, authKeys []int, content []byte,
 			return id, sig, "right"
 		}
 	}
-	switch g.weighted("wrong-proof", "vm-only", 3, "not-listed", 3, "wrong-seq", 4, "prev-content", 2, "other-content", 2, "garbage", 2, "empty", 1, "wrong-id", 2) {
+	switch g.weighted("wrong-proof", "vm-only", 3, "not-listed", 3, "wrong-seq", 4, "prev-content", 2, "other-content", 2, "garbage", 2, "empty", 1, "wrong-id", 2, "foreign-did", 3) {
+	case "foreign-did":
+		// a valid authentication key of ANOTHER registered DID, quoted with that DID's method id
+		var cands [][2]interface{}
+		for _, od := range sortedKeys(w.DID.Entries) {
+			e := w.DID.Entries[od]
+			if od == did || e.Tombstone {
+				continue
+			}
+			a, _ := g.authKeysOf(e.Doc)
+			cands = append(cands, a...)
+		}
+		if len(cands) > 0 {
+			c := pick(g, "foreign-entry", cands)
+			return c[1].(string), sign(c[0].(int), content, seq), "key-of-another-did"
+		}
+		fallthrough
 	case "vm-only":
 		if len(others) > 0 {
 			o := pick(g, "other-entry", others)
